@@ -219,4 +219,242 @@ Section CapFacts.
       + rewrite (cfc_none_some false x Hx), F, (unknown_node_ro_only x Hx), F in Hre.
         rewrite <- Hre in Herr. discriminate.
   Qed.
+
+  (* ---------------- C19: the nodes the node maker builds from tidy caps are stable ---------------- *)
+  Lemma starts_with_split p s : starts_with p s = true -> s = p ++ skipn (List.length p) s.
+  Proof.
+    revert s. induction p as [|x p IH]; intros s H; [reflexivity|].
+    destruct s as [|y s]; [discriminate|]. cbn in H. apply andb_prop in H. destruct H as [E H].
+    apply N.eqb_eq in E. subst y. cbn. f_equal. apply IH. exact H.
+  Qed.
+
+  Lemma rstrip_suffix (a b : bytes) : rstrip_sp (a ++ b) = a ++ b -> b <> [] -> rstrip_sp b = b.
+  Proof.
+    induction a as [|x a IH]; intros H Hb; [exact H|].
+    cbn [app rstrip_sp] in H. destruct (rstrip_sp (a ++ b)) as [|y r'] eqn:E.
+    - exfalso. destruct (x =? 32); [discriminate|]. inversion H as [H1]. symmetry in H1. apply app_eq_nil in H1. tauto.
+    - inversion H as [H1]. apply IH; [|exact Hb]. rewrite H1. reflexivity.
+  Qed.
+
+  (* a cap string as a caller may hand it over: no trailing space; an alleged prefix is followed by a
+     non-empty body that is not prefixed again *)
+  Definition cap_ok (u : bytes) : Prop :=
+    rstrip_sp u = u /\ (prefixed u = true -> body_of u <> [] /\ prefixed (body_of u) = false).
+  Definition ocap_ok (o : option bytes) : Prop := match o with Some u => cap_ok u | None => True end.
+
+  Definition caps_coherent_full : Prop :=
+    forall s, match classify s with
+              | KWrite d c r => tidy c /\ tidy r /\ classify c = KWrite d c r /\ classify r = KRead d r
+              | KRead d c => tidy c /\ classify c = KRead d c
+              | KImm d c => tidy c /\ classify c = KImm d c
+              | _ => True
+              end.
+
+  Lemma nonempty_tidy c : tidy c -> nonempty (rstrip_sp c) = Some c.
+  Proof. intros [H _]. exact H. Qed.
+
+  Lemma tidy_nonempty c : tidy c -> c <> [].
+  Proof. intros [H _] E. subst. discriminate. Qed.
+
+  Lemma unknown_node_truthy w r di : unknown_node w r di = unknown_node (truthy w) (truthy r) di.
+  Proof.
+    unfold Dirnode.unknown_node.
+    assert (T : forall o, truthy (truthy o) = truthy o) by (intros [[|? ?]|]; reflexivity).
+    rewrite !T. reflexivity.
+  Qed.
+
+  Lemma nonempty_rstrip_fixed (u : bytes) : rstrip_sp u = u -> u <> [] -> nonempty (rstrip_sp u) = Some u.
+  Proof. intros -> H. destruct u; [congruence|reflexivity]. Qed.
+
+  (* from_string on an unprefixed string, all flags on *)
+  Lemma from_string_plain u :
+    prefixed u = false ->
+    from_string u false
+    = match classify u with
+      | KWrite d c r => FKnown {| n_kind := kind_of d; n_rw := Some c; n_ro := Some r; n_mut := true; n_err := None |}
+      | KRead d c => FKnown {| n_kind := kind_of d; n_rw := None; n_ro := Some c; n_mut := true; n_err := None |}
+      | KImm d c => FKnown {| n_kind := kind_of d; n_rw := None; n_ro := Some c; n_mut := false; n_err := None |}
+      | KBad _ => FUnknown (Some EBadURI)
+      | _ => FUnknown None
+      end.
+  Proof.
+    intro H. unfold prefixed in H. apply orb_false_iff in H. destruct H as [Hr Hi].
+    unfold Dirnode.from_string. rewrite Hi, Hr. cbn [negb].
+    destruct (classify u) as [d c r|d c|d c|[]| | |]; reflexivity.
+  Qed.
+
+  (* ... and behind an ro. prefix *)
+  Lemma from_string_ro body :
+    from_string (RO_PREFIX ++ body) false
+    = match classify body with
+      | KWrite _ _ _ => FUnknown (Some EMustBeReadonly)
+      | KRead d c => FKnown {| n_kind := kind_of d; n_rw := None; n_ro := Some c; n_mut := true; n_err := None |}
+      | KImm d c => FKnown {| n_kind := kind_of d; n_rw := None; n_ro := Some c; n_mut := false; n_err := None |}
+      | KBad GWrite => FUnknown (Some EMustBeReadonly)
+      | KBad _ => FUnknown (Some EBadURI)
+      | KFutureW => FUnknown (Some EMustBeReadonly)
+      | _ => FUnknown None
+      end.
+  Proof.
+    unfold Dirnode.from_string.
+    change (starts_with IMM_PREFIX (RO_PREFIX ++ body)) with false.
+    change (starts_with RO_PREFIX (RO_PREFIX ++ body)) with true.
+    change (skipn 3 (RO_PREFIX ++ body)) with body. cbn [negb].
+    destruct (classify body) as [d c r|d c|d c|[]| | |]; reflexivity.
+  Qed.
+
+  (* the read-cap field written for an UnknownNode whose read cap came from the caller's string x *)
+  Definition ro_field (x : bytes) : bytes :=
+    if starts_with IMM_PREFIX x then x else if starts_with RO_PREFIX x then skipn 3 x else x.
+
+  Lemma stored_ro_unknown_plain rw x : stored_ro false (unknown_plain rw x) = ro_field x.
+  Proof.
+    unfold stored_ro, unknown_plain, ro_field, prefixed. cbn [n_ro].
+    destruct (starts_with IMM_PREFIX x) eqn:Ei.
+    - rewrite orb_true_r. cbn [or_empty]. unfold strip_prefix_for_ro. rewrite Ei. reflexivity.
+    - destruct (starts_with RO_PREFIX x) eqn:Er; cbn [orb or_empty].
+      + unfold strip_prefix_for_ro. rewrite Ei, Er. reflexivity.
+      + reflexivity.
+  Qed.
+
+  (* reading the field back gives the same UnknownNode read cap, and no error *)
+  Lemma ro_field_back x :
+    cap_ok x -> x <> [] ->
+    (forall e, from_string x false <> FUnknown (Some e)) ->
+    let y := ro_field x in
+    y <> [] /\ rstrip_sp y = y /\
+    (forall e, from_string y false <> FUnknown (Some e)) /\
+    starts_with IMM_PREFIX y = starts_with IMM_PREFIX x /\
+    (if prefixed y then Some y else Some (RO_PREFIX ++ y)) = (if prefixed x then Some x else Some (RO_PREFIX ++ x)) /\
+    ((exists n, from_string x false = FKnown n) \/ from_string x false = FUnknown None ->
+     starts_with IMM_PREFIX x = false -> starts_with RO_PREFIX x = true ->
+     (exists n, from_string y false = FKnown n) \/ from_string y false = FUnknown None).
+  Proof.
+    intros [Hrs Hpre] Hne Herr. unfold ro_field. cbv zeta.
+    destruct (starts_with IMM_PREFIX x) eqn:Ei.
+    - repeat split; auto; try (intros; discriminate).
+    - destruct (starts_with RO_PREFIX x) eqn:Er.
+      + assert (Hp : prefixed x = true) by (unfold prefixed; rewrite Er; reflexivity).
+        destruct (Hpre Hp) as [Hb Hbp]. unfold body_of in Hb, Hbp. rewrite Ei, Er in Hb, Hbp.
+        pose proof (starts_with_split _ _ Er) as Hx. change (List.length RO_PREFIX) with 3%nat in Hx.
+        set (body := skipn 3 x) in *.
+        assert (Hrb : rstrip_sp body = body) by (apply (rstrip_suffix RO_PREFIX body); [rewrite <- Hx; exact Hrs|exact Hb]).
+        assert (Hfs : from_string x false = from_string (RO_PREFIX ++ body) false) by (rewrite <- Hx; reflexivity).
+        rewrite from_string_ro in Hfs.
+        pose proof (from_string_plain body Hbp) as Hfb.
+        unfold prefixed in Hbp. apply orb_false_iff in Hbp. destruct Hbp as [Hbr Hbi].
+        split; [exact Hb|]. split; [exact Hrb|]. split; [|split; [exact Hbi|split]].
+        * intros e He. rewrite Hfb in He.
+          destruct (classify body) as [d c r|d c|d c|g| | |]; try discriminate.
+          destruct g; eapply Herr; rewrite Hfs; reflexivity.
+        * unfold prefixed. rewrite Hbr, Hbi, Er. cbn [orb]. rewrite <- Hx. reflexivity.
+        * intros _ _ _. rewrite Hfb.
+          destruct (classify body) as [d c r|d c|d c|g| | |]; eauto.
+          -- exfalso. eapply Herr. rewrite Hfs. reflexivity.
+          -- exfalso. destruct g; eapply Herr; rewrite Hfs; reflexivity.
+          -- exfalso. eapply Herr. rewrite Hfs. reflexivity.
+      + repeat split; auto; try (intros; discriminate).
+  Qed.
+
+  Theorem cfc_stable w r :
+    caps_coherent_full -> ocap_ok w -> ocap_ok r ->
+    n_err (create_from_cap false w r) = None ->
+    stableb classify (create_from_cap false w r) = true.
+  Proof.
+    intros Hco Hw Hr Herr. unfold stableb. rewrite Herr. apply node_eqb_eq.
+    unfold Dirnode.create_from_cap in *.
+    destruct (match truthy w with Some w0 => Some w0 | None => truthy r end) as [b|] eqn:Eb.
+    2:{ reflexivity. }
+    destruct (from_string b false) as [n|e0] eqn:F.
+    - (* a known node: its caps are canonical, reading them back classifies the same way *)
+      destruct (from_string_known _ _ _ F) as (_ & _ & [H|[H|H]]).
+      + destruct H as (d & c & r0 & Hc & _ & _ & ->). specialize (Hco (body_of b)). rewrite Hc in Hco.
+        destruct Hco as (Htc & Htr & Hcc & Hcr).
+        unfold reread, stored_ro. cbn [n_rw n_ro or_empty]. rewrite (tidy_strip _ _ Htr), (nonempty_tidy _ Htc), (nonempty_tidy _ Htr).
+        rewrite (cfc_some false c _ (tidy_nonempty _ Htc)).
+        destruct Htc as [_ Hpc]. rewrite (from_string_plain c Hpc), Hcc. reflexivity.
+      + destruct H as (d & c & Hc & _ & _ & ->). specialize (Hco (body_of b)). rewrite Hc in Hco.
+        destruct Hco as (Htc & Hcc).
+        unfold reread, stored_ro. cbn [n_rw n_ro or_empty rstrip_sp nonempty]. rewrite (tidy_strip _ _ Htc), (nonempty_tidy _ Htc).
+        rewrite (cfc_none_some false c (tidy_nonempty _ Htc)).
+        destruct Htc as [_ Hpc]. rewrite (from_string_plain c Hpc), Hcc. reflexivity.
+      + destruct H as (d & c & Hc & ->). specialize (Hco (body_of b)). rewrite Hc in Hco.
+        destruct Hco as (Htc & Hcc).
+        unfold reread, stored_ro. cbn [n_rw n_ro or_empty rstrip_sp nonempty]. rewrite (tidy_strip _ _ Htc), (nonempty_tidy _ Htc).
+        rewrite (cfc_none_some false c (tidy_nonempty _ Htc)).
+        destruct Htc as [_ Hpc]. rewrite (from_string_plain c Hpc), Hcc. reflexivity.
+    - (* an UnknownNode *)
+      rewrite unknown_node_truthy in *.
+      destruct (truthy w) as [w1|] eqn:Ew.
+      + (* a cap in the write slot *)
+        inversion Eb; subst b. clear Eb.
+        assert (Hw1 : cap_ok w1 /\ w1 <> []).
+        { destruct w as [[|x w0]|]; try discriminate. cbn in Ew. inversion Ew; subst. split; [exact Hw|discriminate]. }
+        destruct Hw1 as [Hokw Hnew].
+        destruct (truthy r) as [r1|] eqn:Er.
+        * assert (Hr1 : cap_ok r1 /\ r1 <> []).
+          { destruct r as [[|x r0]|]; try discriminate. cbn in Er. inversion Er; subst. split; [exact Hr|discriminate]. }
+          destruct Hr1 as [Hokr Hner].
+          rewrite (unknown_node_both w1 r1 Hnew Hner) in *.
+          destruct (starts_with IMM_PREFIX r1) eqn:Ei; [discriminate|].
+          assert (Hnoerr : forall e, from_string r1 false <> FUnknown (Some e)).
+          { intros e He. rewrite He in Herr. discriminate. }
+          assert (Hn : match from_string r1 false with FUnknown (Some e) => opaque_node (Some e) | _ => unknown_plain (Some w1) r1 end
+                       = unknown_plain (Some w1) r1).
+          { destruct (from_string r1 false) as [?|[e|]]; try reflexivity. exfalso. eapply Hnoerr. reflexivity. }
+          rewrite Hn. clear Hn Herr.
+          destruct (ro_field_back r1 Hokr Hner Hnoerr) as (Hy & Hry & Hey & Hiy & Hroy & _).
+          unfold reread. rewrite stored_ro_unknown_plain. cbn [n_rw unknown_plain or_empty].
+          destruct Hokw as [Hrw _].
+          rewrite (nonempty_rstrip_fixed w1 Hrw Hnew), (nonempty_rstrip_fixed _ Hry Hy).
+          rewrite (cfc_some false w1 _ Hnew), F.
+          rewrite (unknown_node_both w1 (ro_field r1) Hnew Hy). rewrite Hiy, Ei.
+          assert (Hn : match from_string (ro_field r1) false with FUnknown (Some e) => opaque_node (Some e) | _ => unknown_plain (Some w1) (ro_field r1) end
+                       = unknown_plain (Some w1) (ro_field r1)).
+          { destruct (from_string (ro_field r1) false) as [?|[e|]]; try reflexivity. exfalso. eapply Hey. reflexivity. }
+          rewrite Hn. unfold unknown_plain. rewrite Hroy. reflexivity.
+        * (* only a write-slot cap: accepted when it carries an alleged prefix; it then is the read cap *)
+          unfold Dirnode.unknown_node in *. cbn [truthy] in *. rewrite (truthy_some _ Hnew) in *.
+          destruct (prefixed w1) eqn:Ep; [|discriminate].
+          rewrite F in *. destruct e0 as [e|]; [discriminate|]. clear Herr.
+          change ({| n_kind := NUnknown; n_rw := None; n_ro := (if prefixed w1 then Some w1 else Some (RO_PREFIX ++ w1)); n_mut := false; n_err := None |})
+            with (unknown_plain None w1).
+          assert (Hnoerr : forall e, from_string w1 false <> FUnknown (Some e)) by (intros e He; rewrite He in F; discriminate).
+          destruct (ro_field_back w1 Hokw Hnew Hnoerr) as (Hy & Hry & Hey & Hiy & Hroy & Hkind).
+          unfold reread. rewrite stored_ro_unknown_plain. cbn [n_rw unknown_plain or_empty rstrip_sp nonempty].
+          rewrite (nonempty_rstrip_fixed _ Hry Hy). rewrite (cfc_none_some false _ Hy).
+          assert (Hfy : from_string (ro_field w1) false = FUnknown None).
+          { unfold ro_field in *. destruct (starts_with IMM_PREFIX w1) eqn:Ei; [exact F|].
+            destruct (starts_with RO_PREFIX w1) eqn:Er2; [|exact F].
+            destruct (Hkind (or_intror F) eq_refl eq_refl) as [[n Hk]|Hk]; [|exact Hk].
+            (* a known cap behind ro. would have made from_string w1 known as well *)
+            exfalso. pose proof (starts_with_split _ _ Er2) as Hx. change (List.length RO_PREFIX) with 3%nat in Hx.
+            assert (Hbp : prefixed (skipn 3 w1) = false).
+            { destruct Hokw as [_ Hpre]. destruct (Hpre Ep) as [_ Hbp]. unfold body_of in Hbp. rewrite Ei, Er2 in Hbp. exact Hbp. }
+            rewrite (from_string_plain _ Hbp) in Hk. rewrite Hx, from_string_ro in F.
+            destruct (classify (skipn 3 w1)) as [d c r0|d c|d c|g| | |]; try discriminate. destruct g; discriminate. }
+          rewrite Hfy, (unknown_node_ro_only _ Hy), Hfy. unfold unknown_plain. rewrite Hroy. reflexivity.
+      + (* only a read-slot cap *)
+        destruct (truthy r) as [r1|] eqn:Er; [|discriminate]. inversion Eb; subst b. clear Eb.
+        assert (Hr1 : cap_ok r1 /\ r1 <> []).
+        { destruct r as [[|x r0]|]; try discriminate. cbn in Er. inversion Er; subst. split; [exact Hr|discriminate]. }
+        destruct Hr1 as [Hokr Hner].
+        rewrite (unknown_node_ro_only r1 Hner), F in *.
+        destruct e0 as [e|]; [discriminate|]. clear Herr.
+        assert (Hnoerr : forall e, from_string r1 false <> FUnknown (Some e)) by (intros e He; rewrite He in F; discriminate).
+        destruct (ro_field_back r1 Hokr Hner Hnoerr) as (Hy & Hry & Hey & Hiy & Hroy & Hkind).
+        unfold reread. rewrite stored_ro_unknown_plain. cbn [n_rw unknown_plain or_empty rstrip_sp nonempty].
+        rewrite (nonempty_rstrip_fixed _ Hry Hy). rewrite (cfc_none_some false _ Hy).
+        assert (Hfy : from_string (ro_field r1) false = FUnknown None).
+        { unfold ro_field in *. destruct (starts_with IMM_PREFIX r1) eqn:Ei; [exact F|].
+          destruct (starts_with RO_PREFIX r1) eqn:Er2; [|exact F].
+          destruct (Hkind (or_intror F) eq_refl eq_refl) as [[n Hk]|Hk]; [|exact Hk].
+          exfalso. pose proof (starts_with_split _ _ Er2) as Hx. change (List.length RO_PREFIX) with 3%nat in Hx.
+          assert (Hp : prefixed r1 = true) by (unfold prefixed; rewrite Er2; reflexivity).
+          assert (Hbp : prefixed (skipn 3 r1) = false).
+          { destruct Hokr as [_ Hpre]. destruct (Hpre Hp) as [_ Hbp]. unfold body_of in Hbp. rewrite Ei, Er2 in Hbp. exact Hbp. }
+          rewrite (from_string_plain _ Hbp) in Hk. rewrite Hx, from_string_ro in F.
+          destruct (classify (skipn 3 r1)) as [d c r0|d c|d c|g| | |]; try discriminate. destruct g; discriminate. }
+        rewrite Hfy, (unknown_node_ro_only _ Hy), Hfy. unfold unknown_plain. rewrite Hroy. reflexivity.
+  Qed.
 End CapFacts.
